@@ -194,10 +194,16 @@ Definition call_Hp (orc : oracle) (m : mach) (gas : bool) (mol : vec) (T P : Q) 
   (tick m, o_Hp orc (mk m) gas mol T P).
 Definition call_solveT (orc : oracle) (m : mach) (H T P : Q) : mach * Q :=
   (tick m, o_solveT orc (mk m) (ms m) H T P).
+(* the composition a bubble / dew point solver returns has the length of the composition it is given: self._z (the
+   chemicals in equilibrium) in the flashes, the user's x / y in set_Tx / set_Px / set_Ty / set_Py *)
+Definition call_bubble_n (orc : oracle) (n : nat) (arg : Q) (m : mach) : mach * (Q * vec) :=
+  (tick m, let (a, y) := o_bubble orc (mk m) arg in (a, fit n y)).
+Definition call_dew_n (orc : oracle) (n : nat) (arg : Q) (m : mach) : mach * (Q * vec) :=
+  (tick m, let (a, x) := o_dew orc (mk m) arg in (a, fit n x)).
 Definition call_bubble (orc : oracle) (c : ctx) (arg : Q) (m : mach) : mach * (Q * vec) :=
-  (tick m, let (a, y) := o_bubble orc (mk m) arg in (a, fit (length (idx c)) y)).
+  call_bubble_n orc (length (idx c)) arg m.
 Definition call_dew (orc : oracle) (c : ctx) (arg : Q) (m : mach) : mach * (Q * vec) :=
-  (tick m, let (a, x) := o_dew orc (mk m) arg in (a, fit (length (idx c)) x)).
+  call_dew_n orc (length (idx c)) arg m.
 
 (* ---------- single-chemical branches ---------- *)
 (* _set_thermal_condition_chemical *)
@@ -276,7 +282,7 @@ Definition set_xy (cf : cfg) (orc : oracle) (bubble specT : bool) (sv : Q) (comp
   | SOk s c =>
     let m := mset m s in
     if negb (Nat.eqb (cN c) 2) then VErr VAssert m else
-    let (m, r) := if bubble then call_bubble orc c sv m else call_dew orc c sv m in
+    let (m, r) := if bubble then call_bubble_n orc (length comp) sv m else call_dew_n orc (length comp) sv m in
     let (a, other) := r in
     let m := mset m (if specT then with_T (with_P (ms m) a) sv else with_P (with_T (ms m) a) sv) in
     if bubble then lever c comp other m else lever c other comp m
